@@ -14,8 +14,8 @@ package main
 
 import (
 	"go/token"
-	"strconv"
 	"go/types"
+	"strconv"
 	"strings"
 
 	"golang.org/x/tools/go/ssa"
